@@ -3,9 +3,9 @@
     [search_invalid], [cleanup_bool_cast], [cleanup] model the CURRENT tree (CaseWhen arm corrected by commit
     a252909, bool-cast pass corrected by 1da1fb5); the [_coded] variants are the code as it was before and are
     kept only for the regression witnesses. *)
-From Coq Require Import PArith List Bool.
+From Coq Require Import ZArith NArith PArith List Bool.
 Import ListNotations.
-From Cohdl Require Import Vhdl.Value Vhdl.Syntax Vhdl.Sem Vhdl.DefAssign Models.Temps Models.TempsProofs.
+From Cohdl Require Import Vhdl.Value Vhdl.Syntax Vhdl.Sem Vhdl.DefAssign Vhdl.DefAssignTyped Models.Temps Models.TempsProofs.
 
 (** the temporaries check is sound for trees of any shape and depth: every accepted tree has, on every
     execution path, a write before every read of a temporary (not flagged maybe-uninitialized).
@@ -104,3 +104,40 @@ Example C08_def_assign_nonvacuous :
   def_assign [1%positive] (SSeq (Syntax.SCase (ESig 1) (ACons [VL true] (SVar 1 [] (ESig 1)) (ANil (Some SNull)))) (SSig 2 [] (EVar 1))) = false.
 Proof. exact def_assign_nonvacuous. Qed.
 Print Assumptions C08_def_assign_nonvacuous.
+
+(** the rule the harness evaluates on every emitted process: definite assignment after pruning the
+    [when others] arm of a [case] over a signal whose listed choices cover every two-valued value of its declared
+    type.  With signals that hold values of their declared shape ([sig_ok]: the two-valued modelling assumption)
+    the ORIGINAL body behaves identically from any two variable stores that differ only on temporaries. *)
+Theorem C08_def_assign_typed_sound : forall S T body sg ev v1 v2,
+  sig_ok S sg -> def_assign_typed S T body = true -> agree_outside T v1 v2 ->
+  match exec sg ev body v1 [], exec sg ev body v2 [] with
+  | Ok (w1, p1), Ok (w2, p2) =>
+      p1 = p2 /\
+      (forall x, pmem x T = false -> PM.find x w1 = PM.find x w2) /\
+      (exists D, da T (prune S body) [] = Some D /\ forall x, pmem x D = true -> PM.find x w1 = PM.find x w2)
+  | Err e1, Err e2 => e1 = e2
+  | _, _ => False
+  end.
+Proof. exact def_assign_typed_sound. Qed.
+Print Assumptions C08_def_assign_typed_sound.
+
+Theorem C08_prune_exec : forall S s sg ev vr pend, sig_ok S sg ->
+  exec sg ev (prune S s) vr pend = exec sg ev s vr pend.
+Proof. exact prune_exec. Qed.
+Print Assumptions C08_prune_exec.
+
+Example C08_typed_nonvacuous :
+  let S := sig_shapes [ {| sd_id := 1%positive; sd_ty := TVec KSlv 2%N; sd_dir := DIn; sd_init := VV KSlv 2%N 0%Z; sd_hasdef := false |} ] in
+  let full := SSeq (Syntax.SCase (ESig 1%positive) (ACons [VV KSlv 2%N 0%Z] (SVar 1%positive [] (ESig 2%positive))
+                                   (ACons [VV KSlv 2%N 1%Z] (SVar 1%positive [] (ESig 2%positive))
+                                   (ACons [VV KSlv 2%N 2%Z; VV KSlv 2%N 3%Z] (SVar 1%positive [] (ESig 2%positive)) (ANil (Some SNull))))))
+                   (SSig 3%positive [] (EVar 1%positive)) in
+  let part := SSeq (Syntax.SCase (ESig 1%positive) (ACons [VV KSlv 2%N 0%Z] (SVar 1%positive [] (ESig 2%positive))
+                                   (ACons [VV KSlv 2%N 1%Z] (SVar 1%positive [] (ESig 2%positive)) (ANil (Some SNull)))))
+                   (SSig 3%positive [] (EVar 1%positive)) in
+  def_assign [1%positive] full = false /\ def_assign_typed S [1%positive] full = true /\
+  def_assign_typed S [1%positive] part = false /\
+  sig_ok S (PM.add 1%positive (VV KSlv 2%N 2%Z) (PM.empty value)).
+Proof. exact typed_nonvacuous. Qed.
+Print Assumptions C08_typed_nonvacuous.
